@@ -27,9 +27,6 @@ from cxx2lean import Refuse  # noqa: E402
 C.NPROC = max(1, min(C.NPROC, int(os.environ.get("VERIF_JOBS", "4"))))
 
 U64 = (1 << 64) - 1
-CONFIGS = ["mep-std", "mep-alps", "mep-dss", "mep-holdout", "ga-std", "ga-alps", "de"]
-REPEATABLE = {"ga-std", "ga-alps", "de"}     # i_mep dumps contain opcodes, which are numbered by a
-                                             # process-wide counter: an in-process second problem is renamed
 
 
 def hexs(s):
@@ -421,122 +418,348 @@ def clock_scan():
 
 
 # ---- (b) whole runs -----------------------------------------------------------------------------
+# configuration = <kind>-<strategy>[-<validation>]; see harness/c07_run.cc
+CONFIGS = ["mep-std", "mep-alps", "mep-std-dss", "mep-std-holdout", "mep-alps-dss", "cls-std", "cls-alps",
+           "team-std", "team-alps", "team-std-holdout", "ga-std", "ga-alps", "de"]
+REPEATABLE = {"ga-std", "ga-alps", "de"}     # i_mep dumps contain opcodes, which are numbered by a
+                                             # process-wide counter: an in-process second problem is renamed
+STALL_MS = 2300
+WORK = os.path.join(C.BUILD, "c07_work")
+
+
+def gen_params(rng, cfg, inds, gens):
+    """A random point of the environment-parameter grid: every parameter that enables a code path of
+    search / evolution / the strategies may be present (with a value that keeps the environment valid)."""
+    kind = cfg.split("-")[0]
+    p = {}
+
+    def maybe(k, vals, prob=0.4):
+        if rng.chance(prob):
+            p[k] = rng.choice(vals)
+
+    maybe("brood", [1, 2, 3, 4, 6], 0.6)
+    maybe("cache", [0, 4, 8, 12, 16], 0.5)
+    maybe("elit", [0, 1])
+    maybe("pmut", [0, 0.02, 0.1, 0.5, 1.0])
+    maybe("pcross", [0, 0.3, 0.9, 1.0])
+    maybe("tourn", [t for t in (2, 3, 5, 8) if t <= inds])
+    maybe("mate", [2, 5, 20, 100])
+    maybe("stuck", [1, 2, 5, 50])
+    maybe("runs", [1, 2, 3], 0.5)
+    if kind != "de":
+        maybe("layers", [1, 2, 3, 5])
+        maybe("minind", [2, 3])
+    if "alps" in cfg:
+        maybe("agegap", [1, 2, 3, 5, 20], 0.7)
+        maybe("psame", [0, 0.5, 0.75, 1.0])
+        if rng.chance(0.5):               # layers growing: small age gap, room for new layers
+            p["agegap"] = rng.choice([1, 2])
+            p["layers"] = rng.choice([3, 4, 6])
+    if kind in ("mep", "cls", "team"):
+        maybe("code", [8, 16, 24, 40])
+        if "code" in p:
+            maybe("patch", [x for x in (1, 2, 3, 7) if x < p["code"]])
+        maybe("thr", [-1000, -5], 0.15)
+        if kind == "cls":
+            maybe("eva", ["gaussian", "dyn_slot"], 0.6)
+        else:
+            maybe("eva", ["mae", "rmae", "mse", "count"], 0.5)
+    if kind == "team":
+        maybe("team", [1, 2, 3, 4], 0.6)
+    if "dss" in cfg:
+        maybe("dssgap", [1, 2, 3], 0.6)
+    if "holdout" in cfg:
+        maybe("valpct", [10, 30, 50], 0.6)
+    if kind == "de" and rng.chance(0.4):
+        p["dewlo"], p["dewhi"] = rng.choice([(0.5, 1.0), (0.1, 0.2), (0.9, 0.9001), (0.0, 2.0)])
+    return p
+
+
+def params_token(p, ser=None, logs=None):
+    items = ["%s=%s" % (k, p[k]) for k in sorted(p)]
+    if ser:
+        items.append("ser=" + ser)
+    if logs:
+        items.append("logs=" + logs)
+    return ",".join(items)
+
+
+class Proc:
+    """one process of the plan; `chain` = processes that must run one after the other (cold, warm, …)"""
+
+    def __init__(self, key, build, exe, noise, mode, env, params, role, ser=None, logs=None):
+        self.key, self.build, self.exe, self.noise, self.mode, self.env = key, build, exe, noise, mode, env
+        self.params, self.role, self.ser, self.logs = params, role, ser, logs
+        self.rc = self.out = self.err = None
+        self.timed_out = False
+
+    def argv(self, ser=None, logs=None):
+        cfg, seed, gens, inds, _ = self.key
+        return [cfg, seed, gens, inds, self.noise, self.mode,
+                params_token(self.params, ser or self.ser, logs or self.logs)]
+
+    def describe(self):
+        """command line with the scratch paths as placeholders (the replay file recreates them)"""
+        return " ".join(str(x) for x in self.argv("@SER@" if self.ser else None, "@LOGS@" if self.logs else None))
+
+    def step(self):
+        return {"args": self.describe(), "env": self.env, "build": self.build, "role": self.role}
+
+
+def run_proc(p, timeout):
+    if p.logs:
+        os.makedirs(p.logs, exist_ok=True)
+    try:
+        p.rc, p.out, p.err = C.run_harness(p.exe, p.argv(), timeout=timeout, env=p.env)
+        p.timed_out = False
+    except Exception as e:  # subprocess.TimeoutExpired
+        p.rc, p.out, p.err, p.timed_out = 124, "", repr(e)[:300], True
+    return p
+
+
+def first_diff(x, y):
+    a, b = x.splitlines(), y.splitlines()
+    i = next((i for i, (u, v) in enumerate(zip(a, b)) if u != v), min(len(a), len(b)))
+    return i, (a[i][:300] if i < len(a) else "<end>"), (b[i][:300] if i < len(b) else "<end>")
+
+
 def transcripts(chk, rng, broken):
+    import shutil
     exe = C.build_harness("c07_run", "plain")
     exes = [("plain", exe)]
-    if chk.tier != "quick":
+    quick = chk.tier == "quick"
+    if not quick:
         exes.append(("asan", C.build_harness("c07_run", "asan")))
-    nseeds = 5 if chk.tier == "quick" else 30
-    jobs = []
+    nseeds = 3 if quick else 10
+    work = os.path.join(WORK, "%d-%d" % (os.getpid(), chk.seed))
+    shutil.rmtree(work, ignore_errors=True)
+    os.makedirs(work)
+    counter = [0]
+
+    def scratch(name):
+        counter[0] += 1
+        return os.path.join(work, "%s%d" % (name, counter[0]))
+
+    chains, nstall, ncold = [], 0, 0
+    seen_cfg = {}
+    stall_cfgs = {"mep-std": 1, "mep-alps": 1, "ga-alps": 1} if quick else {c: 2 for c in CONFIGS}
     for cfg in CONFIGS:
         for _ in range(nseeds):
             seed = rng.below(1 << 31) if rng.below(4) else rng.choice([0, 1])
-            gens = rng.between(3, 8) if chk.tier == "quick" else rng.between(4, 25)
-            inds = rng.between(10, 30) if chk.tier == "quick" else rng.between(10, 80)
-            jobs.append((cfg, seed, gens, inds))
+            gens = rng.between(3, 8) if quick else rng.between(4, 20)
+            inds = rng.between(10, 30) if quick else rng.between(10, 60)
+            params = gen_params(rng, cfg, inds, gens)
+            key = (cfg, seed, gens, inds, params_token(params))
+            with_logs = rng.chance(0.3)
+            if with_logs:
+                key = key[:4] + (key[4] + ",logs=*",)
 
-    def variants(cfg):
-        v = [([0] + (["repeat"] if cfg in REPEATABLE else []), {}),
-             ([rng.next() | 1], {"MALLOC_PERTURB_": str(rng.between(1, 255)), "VERIF_PAD": "x" * rng.between(1, 5000)}),
-             ([rng.next() | 1], {"MALLOC_PERTURB_": str(rng.between(1, 255)), "MALLOC_ARENA_MAX": "1",
-                                 "VERIF_PAD2": "y" * rng.between(1, 9000), "LC_ALL": "C"})]
-        if chk.tier != "quick":
-            v += [([rng.next() | 1], {"MALLOC_MMAP_THRESHOLD_": "64", "VERIF_PAD": "z" * rng.between(1, 20000)}),
-                  ([rng.next() | 1], {"MALLOC_TOP_PAD_": "1048576"})]
-        return v
+            def mk(build, bexe, noise, mode, env, role, ser=None):
+                return Proc(key, build, bexe, noise, mode, env, params, role, ser=ser,
+                            logs=scratch("logs") if with_logs else None)
 
-    # timing perturbation: a process that stalls > 2 s (once, at a seed-dependent point) must print the
-    # transcript of the processes running at full speed.  evolution::run has a branch taken when more
-    # than 2 s passed since the last progress message; std_es / ALPS decisions read stats_.az.
-    STALL_MS = 2300
-    quick = chk.tier == "quick"
-    stall_cfgs = {"mep-std": 1, "mep-alps": 1, "ga-alps": 1} if quick else {c: 3 for c in CONFIGS}
-    seen_cfg = {}
-    plan = []
-    nstall = 0
-    for cfg, seed, gens, inds in jobs:
-        for bname, bexe in exes:
-            for extra, env in variants(cfg):
-                plan.append((cfg, seed, gens, inds, bname, bexe, extra, env))
-        k = seen_cfg.get(cfg, 0)
-        seen_cfg[cfg] = k + 1
-        if k < stall_cfgs.get(cfg, 0):
-            # after the n-th callback of the first search.run (n <= gens-2: generations follow the stall)
-            n = rng.between(0, max(1, gens - 1))
-            plan.append((cfg, seed, gens, inds, "plain", exe, [0, "stall-cb:%d:%d" % (n, STALL_MS)], {}))
-            nstall += 1
-            if cfg in REPEATABLE and (not quick or cfg == "ga-alps"):
-                # in the middle of a generation: inside the (inds + m)-th fitness evaluation
-                m = inds + rng.between(1, inds)
-                plan.append((cfg, seed, gens, inds, "plain", exe, [0, "stall-eval:%d:%d" % (m, STALL_MS)], {}))
+            for bname, bexe in exes:
+                # (1) same arguments, different heap layouts / allocator behaviour / environment sizes
+                chains.append([mk(bname, bexe, 0, "repeat" if cfg in REPEATABLE and not with_logs else "-", {},
+                                  "reference")])
+                chains.append([mk(bname, bexe, rng.next() | 1, "-",
+                                  {"MALLOC_PERTURB_": str(rng.between(1, 255)), "VERIF_PAD": "x" * rng.between(1, 5000)},
+                                  "heap-noise")])
+                if not quick:
+                    chains.append([mk(bname, bexe, rng.next() | 1, "-",
+                                      {"MALLOC_PERTURB_": str(rng.between(1, 255)), "MALLOC_ARENA_MAX": "1",
+                                       "VERIF_PAD2": "y" * rng.between(1, 9000), "LC_ALL": "C"}, "heap-noise")])
+                    chains.append([mk(bname, bexe, rng.next() | 1, "-",
+                                      {"MALLOC_MMAP_THRESHOLD_": "64", "VERIF_PAD": "z" * rng.between(1, 20000)},
+                                      "heap-noise")])
+            # (2) COLD execution (serialization file named, absent) then WARM executions (the file the
+            #     previous execution left behind): the cache file is not among the things results may depend on
+            if params.get("cache", 16) > 0:
+                ser = scratch("ser") + ".txt"
+                chain = [mk("plain", exe, 0, "-", {}, "cold", ser=ser), mk("plain", exe, 0, "-", {}, "warm", ser=ser)]
+                if not quick:
+                    chain.append(mk("plain", exe, rng.next() | 1, "-", {"MALLOC_PERTURB_": "77"}, "warm-2", ser=ser))
+                chains.append(chain)
+                ncold += 1
+            # (3) timing perturbation
+            k = seen_cfg.get(cfg, 0)
+            seen_cfg[cfg] = k + 1
+            if k < stall_cfgs.get(cfg, 0):
+                n = rng.between(0, max(1, gens - 1))
+                chains.append([mk("plain", exe, 0, "stall-cb:%d:%d" % (n, STALL_MS), {}, "stalled")])
                 nstall += 1
+                if cfg in REPEATABLE and (not quick or cfg == "ga-alps"):
+                    m = inds + rng.between(1, inds)
+                    chains.append([mk("plain", exe, 0, "stall-eval:%d:%d" % (m, STALL_MS), {}, "stalled")])
+                    nstall += 1
 
-    def one(p):
-        cfg, seed, gens, inds, bname, bexe, extra, env = p
-        try:
-            rc, so, se = C.run_harness(bexe, [cfg, seed, gens, inds] + extra, timeout=600, env=env)
-        except Exception as e:  # timeout
-            return p, 124, "", repr(e)
-        return p, rc, so, se
+    def run_chain(chain):
+        for p in chain:
+            run_proc(p, 300)
+        return chain
 
-    with cf.ThreadPoolExecutor(min(8, C.NPROC)) as ex:     # stalled processes mostly sleep
-        res = list(ex.map(one, plan))
-
+    with cf.ThreadPoolExecutor(C.NPROC) as ex:
+        list(ex.map(run_chain, chains))
+    # a time-out is never a verdict: once more, alone, with a generous limit; then it is only a note
+    ntimeout = 0
+    for chain in chains:
+        if any(p.timed_out for p in chain):
+            ntimeout += 1
+            for p in chain:
+                if p.ser and os.path.exists(p.ser):
+                    os.remove(p.ser)
+                    break
+            for p in chain:
+                run_proc(p, 1800)
     groups = {}
-    for (cfg, seed, gens, inds, bname, bexe, extra, env), rc, so, se in res:
-        key = (cfg, seed, gens, inds)
-        args = "%s %d %d %d %s" % (cfg, seed, gens, inds, " ".join(map(str, extra)))
-        chk.count("run:" + cfg)
-        if rc != 0:
-            chk.violation("whole run `%s` (%s build) ended with rc=%d\n%s" % (args, bname, rc, se[-1500:]),
-                          {"run": args, "build": bname, "env": env},
-                          tags={"kind": "run", "config": cfg, "clause": "died"})
+    for chain in chains:
+        for i, p in enumerate(chain):
+            p.chain, p.pos = chain, i
+            chk.count("run:" + p.key[0])
+            chk.count("role:" + p.role)
+            chk.seen(("run", p.key, p.build, p.role, p.noise, tuple(sorted(p.env))))
+            groups.setdefault(p.key, []).append(p)
+
+    def replay_of(a, b):
+        """steps that reproduce processes a and b (with the executions that must precede them)"""
+        if a.ser and a.chain is b.chain:
+            return {"steps": [dict(r.step(), chain=1) for r in b.chain[:max(a.pos, b.pos) + 1]],
+                    "compare": [a.pos, b.pos]}
+        steps = []
+        for q in (a, b):
+            pre = q.chain[:q.pos + 1] if q.ser else [q]
+            for r in pre:
+                st = r.step()
+                st["chain"] = id(q.chain) % 100000 if q.ser else None
+                steps.append(st)
+        ia = len(a.chain[:a.pos + 1]) - 1 if a.ser else 0
+        return {"steps": steps, "compare": [ia, len(steps) - 1]}
+
+    ngen = nwarm_loaded = 0
+    for key, procs in groups.items():
+        cfg = key[0]
+        live = []
+        for p in procs:
+            if p.timed_out:
+                chk.notes.append("whole run `%s` did not finish within the time limit twice – inconclusive, no verdict "
+                                 "drawn from it" % p.describe())
+                chk.count("run-timeout")
+                continue
+            if p.role.startswith("warm"):
+                if "SERIALIZATION-FILE present" in (p.err or ""):
+                    nwarm_loaded += 1
+                else:
+                    broken.append("warm execution `%s` did not find the serialization file of the previous one (%s)"
+                                  % (p.describe(), (p.err or "")[-200:]))
+            if p.rc == 0 and "STALL-NOT-REACHED" in p.out:
+                broken.append("timing perturbation did not happen in `%s` (stall point beyond the end of the run)"
+                              % p.describe())
+                p.out = p.out.replace("STALL-NOT-REACHED\n", "")
+            if p.role == "stalled":
+                chk.count("stalled_process:" + cfg)
+            live.append(p)
+        if not live:
             continue
-        if "STALL-NOT-REACHED" in so:
-            broken.append("timing perturbation did not happen in `%s` (stall point beyond the end of the run)" % args)
-            so = so.replace("STALL-NOT-REACHED\n", "")
-        if any(str(x).startswith("stall-") for x in extra):
-            chk.count("stalled_process:" + cfg)
-        main, _, rep = so.partition("REPEAT ")
-        if rep and not rep.startswith("same"):
-            a, b = main.splitlines(), rep.split("SECOND\n", 1)[-1].splitlines()
-            first = next((i for i, (x, y) in enumerate(zip(a, b)) if x != y), min(len(a), len(b)))
-            chk.violation("same seed, two runs in ONE process differ: `%s` – first differing transcript line %d:\n"
-                          "  1st: %s\n  2nd: %s" % (args, first, a[first][:300] if first < len(a) else "<end>",
-                                                   b[first][:300] if first < len(b) else "<end>"),
-                          {"run": args + " repeat", "build": bname},
-                          tags={"kind": "run", "config": cfg, "clause": "in-process-repeat"})
-        if "GEN " not in main or "FINAL" not in main:
-            broken.append("whole-run harness printed no transcript for `%s`: %s" % (args, (so + se)[-300:]))
+        # processes that died: a violation of THIS property only when the executions disagree about dying
+        dead = [p for p in live if p.rc != 0]
+        if dead and len(dead) == len(live) and len({p.rc for p in dead}) == 1:
+            chk.notes.append("configuration `%s` ends with rc=%d in every execution (deterministic failure – not a "
+                             "matter of this property): %s" % (dead[0].describe(), dead[0].rc,
+                                                              (dead[0].err or "")[-300:].replace("\n", " | ")))
+            chk.count("run-fails-deterministically:" + cfg)
             continue
-        groups.setdefault(key, []).append((bname, args, env, main))
-        chk.seen(("run", key, bname, tuple(sorted(env))))
-    ngen = 0
-    for key, runs in groups.items():
-        ref = runs[0]
-        ngen += ref[3].count("GEN ")
-        for r in runs[1:]:
-            if r[3] != ref[3]:
-                a, b = ref[3].splitlines(), r[3].splitlines()
-                first = next((i for i, (x, y) in enumerate(zip(a, b)) if x != y), min(len(a), len(b)))
-                chk.violation("same seed, two PROCESSES print different transcripts%s: `%s` (%s) vs `%s` (%s, env %s) – "
-                              "first differing line %d:\n  A: %s\n  B: %s"
-                              % (" (B stalls once for > 2 s: the result depends on the wall clock)"
-                                 if "stall-" in r[1] else "", ref[1], ref[0], r[1], r[0], sorted(r[2]), first,
-                                 a[first][:300] if first < len(a) else "<end>",
-                                 b[first][:300] if first < len(b) else "<end>"),
-                              {"run_a": ref[1], "run_b": r[1], "env_b": r[2], "builds": [ref[0], r[0]]},
-                              tags={"kind": "run", "config": key[0],
-                                    "clause": "timing" if "stall-" in r[1] else "two-processes"})
+        ref = next(p for p in live if p.rc == 0)
+        for p in dead:
+            chk.violation("same seed, problem, data and parameters: `%s` (%s, %s) ends with rc=%d while `%s` (%s, %s) "
+                          "completes\n%s" % (p.describe(), p.build, p.role, p.rc, ref.describe(), ref.build, ref.role,
+                                             (p.err or "")[-1200:]),
+                          replay_of(ref, p), tags={"kind": "run", "config": cfg, "clause": "died"})
+        ok = [p for p in live if p.rc == 0]
+        mains = {}
+        for p in ok:
+            main, _, rep = p.out.partition("REPEAT ")
+            mains[id(p)] = main
+            if rep and not rep.startswith("same"):
+                i, x, y = first_diff(main, rep.split("SECOND\n", 1)[-1])
+                chk.violation("same seed, two runs in ONE process differ: `%s` – first differing transcript line %d:\n"
+                              "  1st: %s\n  2nd: %s" % (p.describe(), i, x, y),
+                              {"steps": [p.step()], "compare": [0, 0]},
+                              tags={"kind": "run", "config": cfg, "clause": "in-process-repeat"})
+            if "GEN " not in main or "FINAL" not in main:
+                broken.append("whole-run harness printed no transcript for `%s`: %s"
+                              % (p.describe(), (p.out + p.err)[-300:]))
+        ok = [p for p in ok if "GEN " in mains[id(p)] and "FINAL" in mains[id(p)]]
+        if not ok:
+            continue
+        ref = ok[0]
+        ngen += mains[id(ref)].count("GEN ")
+        for p in ok[1:]:
+            if mains[id(p)] != mains[id(ref)]:
+                i, x, y = first_diff(mains[id(ref)], mains[id(p)])
+                why = {"stalled": " (B stalls once for > 2 s: the result depends on the wall clock)",
+                       "warm": " (B is a WARM execution: it starts with the serialization file the previous execution "
+                               "left behind – the result depends on a cache file)",
+                       "warm-2": " (B is a WARM execution: it starts with the serialization file the previous "
+                                 "execution left behind – the result depends on a cache file)",
+                       "cold": " (B names a serialization file that does not exist yet)"}.get(p.role, "")
+                chk.violation("same seed, problem, data and parameters, two PROCESSES print different transcripts%s:\n"
+                              "  A: `%s` (%s, %s)\n  B: `%s` (%s, %s, env %s)\n  first differing line %d:\n  A: %s\n  B: %s"
+                              % (why, ref.describe(), ref.build, ref.role, p.describe(), p.build, p.role,
+                                 sorted(p.env), i, x, y),
+                              replay_of(ref, p),
+                              tags={"kind": "run", "config": cfg,
+                                    "clause": {"stalled": "timing", "warm": "warm-cache", "warm-2": "warm-cache",
+                                               "cold": "serialization-file"}.get(p.role, "two-processes")})
                 break
     chk.cov["timing_perturbation"] = {"stalled_processes": nstall, "stall_ms": STALL_MS,
                                       "configurations": sorted(stall_cfgs)}
-    chk.cov["whole_runs"] = {"configurations": CONFIGS, "processes": len(res), "groups": len(groups),
-                             "generations_compared": ngen, "builds": [b for b, _ in exes]}
+    chk.cov["cold_warm"] = {"chains": ncold, "warm_executions_that_loaded_the_previous_cache": nwarm_loaded}
+    chk.cov["whole_runs"] = {"configurations": CONFIGS, "processes": sum(len(c) for c in chains),
+                             "groups": len(groups), "generations_compared": ngen, "builds": [b for b, _ in exes],
+                             "chains_rerun_after_a_timeout": ntimeout}
+    params_seen = {}
+    for key in groups:
+        for kv in key[4].split(","):
+            if kv:
+                params_seen[kv.split("=")[0]] = params_seen.get(kv.split("=")[0], 0) + 1
+    chk.cov["parameter_grid"] = params_seen
     if groups:
         k = sorted(groups)[0]
-        chk.sample({"run": groups[k][0][1], "transcript_bytes": len(groups[k][0][3]),
+        chk.sample({"run": groups[k][0].describe(), "transcript_bytes": len(groups[k][0].out or ""),
                     "identical_processes": len(groups[k])})
+    shutil.rmtree(work, ignore_errors=True)
+
+
+def replay_whole_run(chk, r):
+    """re-execute the steps of a whole-run finding in a fresh scratch directory and compare the two marked"""
+    import shutil
+    work = os.path.join(WORK, "replay-%d" % os.getpid())
+    shutil.rmtree(work, ignore_errors=True)
+    os.makedirs(work)
+    outs, sers, nlogs = [], {}, 0
+    for st in r["steps"]:
+        args = st["args"]
+        if "@SER@" in args:
+            args = args.replace("@SER@", sers.setdefault(st.get("chain"), os.path.join(work, "ser%d.txt" % len(sers))))
+        if "@LOGS@" in args:
+            nlogs += 1
+            d = os.path.join(work, "logs%d" % nlogs)
+            os.makedirs(d)
+            args = args.replace("@LOGS@", d)
+        bexe = C.build_harness("c07_run", st.get("build", "plain"))
+        try:
+            rc, so, se = C.run_harness(bexe, args.split(" "), timeout=1800, env=st.get("env") or None)
+        except Exception as e:
+            rc, so, se = 124, "", repr(e)
+        outs.append((rc, so.replace("STALL-NOT-REACHED\n", "")))
+        chk.seen(("replay", st["args"]))
+    i, j = r["compare"]
+    bad = outs[i][0] != outs[j][0] or "REPEAT different" in outs[i][1] or \
+        outs[i][1].partition("REPEAT ")[0] != outs[j][1].partition("REPEAT ")[0]
+    shutil.rmtree(work, ignore_errors=True)
+    if bad:
+        chk.violation("replayed whole runs still differ / fail: %s" % [s["args"] for s in r["steps"]], r,
+                      tags={"kind": "run", "clause": "replay"})
 
 
 def run(chk, replay=None):
@@ -573,19 +796,8 @@ def run(chk, replay=None):
     if replay:
         r = json.load(open(replay))["replay"]
         only_line = r.get("line")
-        runs = [x for x in (r.get("run_a"), r.get("run_b"), r.get("run")) if x]
-        if runs:                       # replay of a whole-run finding: the two processes, nothing else
-            outs = []
-            for k, a in enumerate(runs):
-                bexe = C.build_harness("c07_run", (r.get("builds") or [r.get("build", "plain")] * 2)[min(k, 1)])
-                rc, so, se = C.run_harness(bexe, a.split(), timeout=600, env=r.get("env_b") if k == 1 else None)
-                outs.append((rc, so))
-                chk.seen(("replay", a))
-            bad = any(rc != 0 for rc, _ in outs) or "REPEAT different" in outs[0][1] or \
-                (len(outs) == 2 and outs[0][1].partition("REPEAT ")[0] != outs[1][1].partition("REPEAT ")[0])
-            if bad:
-                chk.violation("replayed whole runs still differ / fail: %s" % runs, r,
-                              tags={"kind": "run", "clause": "replay"})
+        if r.get("steps"):             # replay of a whole-run finding: the processes involved, nothing else
+            replay_whole_run(chk, r)
             return chk.finish(level="proof", checker_cmd="(replay of a whole-run finding)", rule="replay")
     lines = [only_line] if only_line else corpus + gen_lines(rng, chk.tier) + gen_cfg_lines(rng, chk.tier)
 
